@@ -1091,6 +1091,89 @@ func main() {
 		}
 	}
 
+	// Diagnostics: the same three predicates evaluated here, only to name the offending sites for
+	// a human reader.  Not part of the proof: the verdict is the kernel's evaluation in Lean.
+	var diags []string
+	heldHas := func(h, m string) (has, excl bool) {
+		for _, p := range splitHeld(h) {
+			if p[0] == m {
+				has = true
+				if p[1] == "x" {
+					excl = true
+				}
+			}
+		}
+		return
+	}
+	protects := func(w, x string) bool {
+		for _, p := range splitHeld(w) {
+			if has, _ := heldHas(x, p[0]); has && p[1] == "x" {
+				return true
+			}
+		}
+		for _, p := range splitHeld(x) {
+			if has, _ := heldHas(w, p[0]); has && p[1] == "x" {
+				return true
+			}
+		}
+		return false
+	}
+	for _, f := range setList(reach) {
+		for _, w := range a.fns[f].sites {
+			if w.kind != kWrite || w.allow != 0 {
+				continue
+			}
+			for _, g := range setList(reach) {
+				for _, x := range a.fns[g].sites {
+					if x.kind != kCall && x.allow == 0 && x.tgt == w.tgt && !protects(w.held, x.held) && len(diags) < 12 {
+						diags = append(diags, fmt.Sprintf("ReaderDiscipline: write of %s in %s holding {%s} and %s of it in %s holding {%s} share no mutex held exclusively on one side",
+							w.tgt, a.fns[f].name, w.held, []string{"read", "write"}[x.kind], a.fns[g].name, x.held))
+					}
+				}
+			}
+		}
+	}
+	isInitRoot := map[int]bool{}
+	for _, r := range initRoots {
+		isInitRoot[r] = true
+	}
+	for _, f := range setList(initOnly) {
+		if !isInitRoot[f] && a.fns[f].escapes {
+			why := "calls a function that does"
+			for _, s := range a.fns[f].sites {
+				if s.kind == kWrite && a.globals[base(s.tgt)] {
+					why = "writes " + s.tgt
+				}
+			}
+			diags = append(diags, fmt.Sprintf("GlobalsInitOnly: %s %s but can run outside package initialisation (exported, a method, or used as a value)", a.fns[f].name, why))
+		}
+	}
+	for _, r := range roots {
+		if initOnly[r] {
+			diags = append(diags, fmt.Sprintf("GlobalsInitOnly: reader root %s writes package-level variables (directly or through calls)", a.fns[r].name))
+		}
+	}
+	for _, g := range guards {
+		for _, fi := range a.fns {
+			for _, s := range fi.sites {
+				if s.kind == kCall || locID[s.tgt] != g.loc {
+					continue
+				}
+				has, excl := heldHas(s.held, mtxs[g.mtx])
+				if (s.kind == kWrite && !excl) || (s.kind == kRead && g.reads && !has) {
+					diags = append(diags, fmt.Sprintf("GuardedLocations: %s of %s in %s holds {%s}, not its declared guard %s",
+						[]string{"read", "write"}[s.kind], s.tgt, fi.name, s.held, mtxs[g.mtx]))
+				}
+			}
+		}
+	}
+	if goStmts > 0 {
+		diags = append(diags, fmt.Sprintf("ReaderDiscipline: the packages contain %d go statement(s)", goStmts))
+	}
+	for _, d := range diags {
+		fmt.Fprintln(os.Stderr, "extract-access: DIAGNOSTIC "+d)
+	}
+
 	if *dump {
 		a.dump(&cfg, matched, reach, initOnly)
 		return
@@ -1163,6 +1246,13 @@ func main() {
 	}
 	w("]\n  goStmts := %d\n", goStmts)
 	w("\nend Goyang.Gen.Access\n")
+	if len(diags) > 0 {
+		w("\n/- DIAGNOSTICS of the translator (for the reader; not part of the proof, the verdict is the kernel's):\n")
+		for _, d := range diags {
+			w("   %s\n", strings.ReplaceAll(d, "-/", "- /"))
+		}
+		w("-/\n")
+	}
 
 	if *out == "" {
 		os.Stdout.WriteString(sb.String())
